@@ -1,5 +1,5 @@
 """Registry of all translators: Gen/<name>.v  <-  function returning Coq text."""
-from translate import ops, gatecode, wrapper, groupsum
+from translate import ops, gatecode, wrapper, groupsum, guards
 
 ALL = {
     "Ops": ops.gen_ops,
@@ -9,4 +9,5 @@ ALL = {
     "WrapperParams": wrapper.gen_wrapper_params,
     "HostSrc": wrapper.gen_host,
     "GroupSumSrc": groupsum.gen_groupsum,
+    "Guards": guards.gen_guards,
 }
